@@ -296,6 +296,9 @@ pub struct PreSpec {
     /// bit is flipped while the MACs are those of the original bit
     #[serde(default, skip_serializing_if = "Option::is_none")]
     pub dealer_cheater: Option<usize>,
+    /// ... and all MACs of that share set to zero instead of left as they were
+    #[serde(default, skip_serializing_if = "std::ops::Not::not")]
+    pub dealer_cheater_zero_macs: bool,
 }
 
 #[derive(Clone, Debug, Serialize, Deserialize)]
@@ -346,10 +349,16 @@ impl Task for PreTask {
                 }
                 let ands = s.ands;
                 let forge = s.dealer_cheater == Some(p);
+                let zero = s.dealer_cheater_zero_macs;
                 let pick = move |sh: &[PlainShare]| {
                     let mut pairs = pick_pairs(sh, ands);
                     if forge && let Some(first) = pairs.first_mut() {
                         first.0.bit = !first.0.bit;
+                        if zero {
+                            for m in first.0.macs.iter_mut() {
+                                *m = 0;
+                            }
+                        }
                     }
                     pairs
                 };
@@ -543,8 +552,8 @@ fn c10_run(spec: &PreSpec) -> (Vec<Violation>, u64, u64) {
         if let Some((h, o)) = oks.iter().find(|(p, o)| *p != c && !o.ands.is_empty()) {
             v.push(viol(
                 "dealer-accepted-forged-share",
-                "dealer-accepted-forged-share",
-                format!("party {c} submitted a left share with a flipped bit and the MACs of the original bit; the dealer answered and honest party {h} holds {} AND shares built on it (n={})", o.ands.len(), spec.n),
+                if spec.dealer_cheater_zero_macs { "dealer-accepted-forged-share:zero-macs" } else { "dealer-accepted-forged-share" },
+                format!("party {c} submitted a left share with a flipped bit and {}; the dealer answered and honest party {h} holds {} AND shares built on it (n={})", if spec.dealer_cheater_zero_macs { "all MACs set to zero" } else { "the MACs of the original bit" }, o.ands.len(), spec.n),
                 &sv,
             ));
         }
@@ -619,7 +628,7 @@ impl Check for C10 {
         "exploration"
     }
     fn rule(&self) -> String {
-        "each evaluation is one simulated execution of the real preprocessing sub-protocols by n in 2..5 parties (coin tossing, fashare of length l in {1,2,7,8,9,127,128,129,1000,1001,5000}, then beaver_aand for l_and in {1,2,3,100,3099,3100} on arbitrary left/right shares incl. x AND x; bucket size 5 and 4; 280000 (bucket 3) once in thorough) or of the trusted-dealer provider (fpre as extra node), under random capacity and schedule; oracle recomputed from plain integers: for all i != j and every index mac_i[j] == key_j[i] ^ (bit_i & delta_j); XOR of AND shares == AND of XORs of the inputs with valid MACs; multi-party and pairwise shared generators in the same state at all parties; trusted dealer against a party (every index, n in 2..5) that submits a left share with a flipped bit and the MACs of the original bit: no honest party may be handed AND shares; distinct = (n, l, l_and, provider) tuples x seeds".into()
+        "each evaluation is one simulated execution of the real preprocessing sub-protocols by n in 2..5 parties (coin tossing, fashare of length l in {1,2,7,8,9,127,128,129,1000,1001,5000}, then beaver_aand for l_and in {1,2,3,100,3099,3100} on arbitrary left/right shares incl. x AND x; bucket size 5 and 4; 280000 (bucket 3) once in thorough) or of the trusted-dealer provider (fpre as extra node), under random capacity and schedule; oracle recomputed from plain integers: for all i != j and every index mac_i[j] == key_j[i] ^ (bit_i & delta_j); XOR of AND shares == AND of XORs of the inputs with valid MACs; multi-party and pairwise shared generators in the same state at all parties; trusted dealer against a party (every index, n in 2..5) that submits a left share with a flipped bit and either the MACs of the original bit or all MACs set to zero: no honest party may be handed AND shares; distinct = (n, l, l_and, provider) tuples x seeds".into()
     }
     fn assumptions(&self) -> Vec<String> {
         vec!["all parties honest; the relations are checked on the outputs handed to the online phase".into()]
@@ -662,6 +671,8 @@ impl Check for C10 {
                 }
                 v.push(json!({"seed": seed, "k": k, "n": n, "l": 6, "ands": 2, "dealer": true, "dealer_cheater": c}));
                 k += 1;
+                v.push(json!({"seed": seed, "k": k, "n": n, "l": 6, "ands": 2, "dealer": true, "dealer_cheater": c, "zero_macs": true}));
+                k += 1;
             }
         }
         // coin tossing against an equivocating party
@@ -687,10 +698,12 @@ impl Check for C10 {
             sched: sched(&mut rng, n),
             equivocate: None,
             dealer_cheater: None,
+            dealer_cheater_zero_macs: false,
         };
         let mut spec = spec;
         if let Some(c) = case.get("dealer_cheater").and_then(|x| x.as_u64()) {
             spec.dealer_cheater = Some(c as usize % n);
+            spec.dealer_cheater_zero_macs = case["zero_macs"] == true;
         }
         if case.get("equiv").is_some() {
             let cheater = rng.random_range(0..n);
@@ -1182,6 +1195,7 @@ impl Check for C06 {
                     sched: sched(&mut rng, n),
                     equivocate: None,
                     dealer_cheater: None,
+                    dealer_cheater_zero_macs: false,
                 };
                 cx.begin(&json!({"fashare": spec}));
                 let (v, steps, looked) = c06_fashare_run(&spec);
